@@ -183,9 +183,19 @@ def rule3_signal(ctx, fl):
     ctx.floor('C05.3', 20)
 
 
+def rule_init_complete(ctx, fl):
+    ctx.doc('C05.4', 'initialiser completeness: every field of the condition variable that myth_cond_wait_body / myth_cond_signal_body / myth_cond_broadcast_body read(s), directly or through an inlined helper, '
+            'is written by myth_cond_init_body (an object placed in recycled memory must not depend on its previous contents)')
+    vi = ctx.view(NATIVE, roots=['myth_cond_init_body', 'myth_cond_wait_body', 'myth_cond_signal_body', 'myth_cond_broadcast_body'], stops=('myth_queue_push', 'myth_queue_pop', 'myth_yield_ex_body', 'hr_gettime', 'fprintf', 'exit') + lib.SPIN_STOPS, flavour=fl)
+    n = lib.init_covers(ctx, 'C05.4', vi, 'myth_cond_init_body', ['myth_cond_wait_body', 'myth_cond_signal_body', 'myth_cond_broadcast_body'], 'condition variable')
+    ctx.ob('C05.4', 'fields read by the operations enumerated', n >= 1, 'read set of the operations', loc='src/myth_sync_func.h', detail=str(n))
+    ctx.floor('C05.4', 3)
+
+
 def run(ctx):
     for fl in flavours(ctx):
         ctx.unit = fl
+        rule_init_complete(ctx, fl)
         rule1_cb_order(ctx, fl)
         rule2_wait(ctx, fl)
         rule3_signal(ctx, fl)
@@ -193,6 +203,8 @@ def run(ctx):
 
 SYNC = 'src/myth_sync_func.h'
 MUTANTS = [
+    {'name': 'cond_init forgets the sleep queue', 'expect': 'C05.4',
+     'edits': [(SYNC, '  myth_sleep_queue_init(cond->sleep_q);\n  if (attr) {\n    cond->attr = *attr;', '  if (attr) {\n    cond->attr = *attr;')]},
     {'name': 'swap enqueue and unlock in myth_block_on_queue_cb', 'expect': 'C05.1',
      'edits': [(SYNC, """  myth_sleep_queue_enq_th(q, cur);
   if (m) {
